@@ -106,25 +106,24 @@ func isHex(s string) bool {
 
 var (
 	errMu      sync.Mutex
-	errByClass = map[string]string{}
+	errByClass = map[string]map[string]bool{}
 )
 
-// errorClassConsistent records the error text per rejection class and demands it is constant per class
-// and distinct between classes.
-func errorClassConsistent(class, text string) error {
+// errorClassDistinct records the error texts seen per rejection class and demands that no text is shared between
+// two classes ("rejected with their distinct errors"); the texts themselves and their constancy are not demanded.
+func errorClassDistinct(class, text string) error {
 	errMu.Lock()
 	defer errMu.Unlock()
-	if prev, ok := errByClass[class]; ok {
-		if prev != text {
-			return gen.Fail("Decode/error-not-constant", "class %s: %q vs %q", class, prev, text)
-		}
-	} else {
-		errByClass[class] = text
-	}
 	for k, v := range errByClass {
-		if k != class && v == text {
-			return gen.Fail("Decode/error-not-distinct", "classes %s and %s share error %q", k, class, text)
+		if k != class && v[text] {
+			return gen.Fail("Decode/error-not-distinct", "classes %s and %s share the error %q", k, class, text)
 		}
+	}
+	if errByClass[class] == nil {
+		errByClass[class] = map[string]bool{}
+	}
+	if len(errByClass[class]) < 64 {
+		errByClass[class][text] = true
 	}
 	return nil
 }
@@ -240,8 +239,8 @@ var c07dec = gen.Register(&gen.Check[caseC07dec]{
 			if err == nil {
 				return gen.Fail("Decode/accepts-invalid", "%s of %q (%s) accepted", c.Via, c.Data+c.Text, class)
 			}
-			if class != "reject:hex" {
-				if e := errorClassConsistent(class, err.Error()); e != nil {
+			if class != "reject:hex" && !(c.Via == "hex" && c.Text != strings.ToLower(c.Text)) {
+				if e := errorClassDistinct(class, err.Error()); e != nil {
 					return e
 				}
 			}
@@ -249,6 +248,10 @@ var c07dec = gen.Register(&gen.Check[caseC07dec]{
 			return nil
 		}
 		if err != nil {
+			if c.Via == "hex" && c.Text != strings.ToLower(c.Text) {
+				o.Class("hex-uppercase-rejected")
+				return nil // whether upper-case hex digits are accepted is not part of the statement
+			}
 			return gen.Fail("Decode/rejects-valid", "%s of %x rejected: %v", c.Via, data, err)
 		}
 		if e := checkScalar("Decode", s, v); e != nil {
